@@ -76,13 +76,13 @@ def frames(stream, scenario_lines=None):
             if cur is not None:
                 cur.evid = int(rest.split()[0])
         elif tag in ('res', 'rec'):
-            if cur is None or cur.now is not None:
+            if cur is None or cur.now is not None or cur.trigger[0] == 'runbegin':
                 close_frame()
                 cur = Frame(('ext', None))
                 fs.append(cur)
             (cur.results if tag == 'res' else cur.recs).append(rest)
         elif tag == 'now':
-            if cur is None or cur.now is not None:
+            if cur is None or cur.now is not None or cur.trigger[0] == 'runbegin':
                 close_frame()
                 cur = Frame(('ext', None))
                 fs.append(cur)
@@ -150,22 +150,22 @@ def ev_key(e):
 
 # ------------------------------------------------------------------------------------------- C01
 def c01(stream, scen=None):
-    """time-then-priority dispatch, clock = event time, clock monotone, run ends at t0+d with
-    nothing due left, nothing executed beyond t0+d, no event executed twice."""
+    """time-then-priority dispatch, clock = event time, clock monotone, no event executed twice."""
     wit = []
     fs = frames(stream)
     prev = None
     now = 0.0
     executed = set()
-    run_t0 = None
+    term = None       # the terminate event of the run that just began (scheduled after the last dump)
     for i, f in enumerate(fs):
         if f.trigger[0] == 'ev':
             e = f.trigger[1]
-            if prev is not None and prev.q:
-                mn = min(ev_key(x) for x in prev.q)
-                if ev_key(e) != mn:
+            if prev is not None:
+                cand = [ev_key(x) for x in prev.q] + ([term] if term is not None else [])
+                if cand and ev_key(e) != min(cand):
                     wit.append(f'frame {i}: executed event (time {e["time"]}, prio {e["prio"]}) is not the '
-                               f'earliest / highest-priority pending one {mn}')
+                               f'earliest / highest-priority pending one {min(cand)}')
+            term = None
             if f.now is not None and f.now != e['time']:
                 wit.append(f'frame {i}: clock {f.now} differs from the executed event time {e["time"]}')
             if e['time'] < now:
@@ -178,12 +178,9 @@ def c01(stream, scen=None):
             if f.now < now:
                 wit.append(f'frame {i}: clock went backwards from {now} to {f.now}')
             now = max(now, f.now)
-        if f.trigger[0] == 'runbegin' and prev is not None:
-            # the terminate event of this run is scheduled without a dump of its own
-            g = Frame(prev.trigger)
-            g.q = list(prev.q) + [{'time': f.trigger[1] + f.trigger[2], 'prio': 4.0}]
-            prev = g
-        if f.now is not None and f.trigger[0] != 'ran':
+        if f.trigger[0] == 'runbegin':
+            term = (f.trigger[1] + f.trigger[2], -4.0)
+        if f.now is not None and f.trigger[0] not in ('ran', 'runbegin'):
             prev = f
     return wit
 
@@ -497,3 +494,442 @@ def c19(stream, scen):
 
 
 MONITORS.update({'C09': [c09], 'C10': [c10], 'C12': [c12], 'C18': [c18], 'C19': [c19]})
+
+
+# ------------------------------------------------------------------------------- floor monitors
+def plist_(s, sep=';'):
+    return [] if s in ('-', '', None) else s.split(sep)
+
+
+class DevS:
+    """parsed `d` line"""
+
+    def __init__(self, idx, body):
+        t = body.split(' ', 1)
+        self.idx = idx
+        self.kind = t[0]
+        self.f = kvline(t[1] if len(t) > 1 else '')
+
+    def slot(self, k):
+        v = self.f.get(k, '-')
+        return None if v == '-' else int(v)
+
+    def buf(self):
+        return [(int(a), int(b)) for a, b in (e.split(':') for e in plist_(self.f.get('buf', '-')))]
+
+    def held(self):
+        out = [x for x in (self.slot('part'), self.slot('out'), self.slot('inprog')) if x is not None]
+        return out + [p for _, p in self.buf()]
+
+
+def devs_of(state):
+    return {int(k[2:]): DevS(int(k[2:]), v) for k, v in state.items() if k.startswith('d ')}
+
+
+def parts_of(state):
+    out = {}
+    for k, v in state.items():
+        if k.startswith('p '):
+            d = kvline(v)
+            kids = d['kids']
+            out[int(k[2:])] = {'q': d['q'], 'v': d['v'], 'hist': [int(x) for x in plist_(d['hist'])],
+                               'stack': [int(x) for x in plist_(d['stack'])],
+                               'kids': None if kids == '-' else [int(x) for x in plist_(kids[1:-1])]}
+    return out
+
+
+def leaves(parts, p):
+    r = parts.get(p)
+    if r is None or r['kids'] is None:
+        return [p]
+    return list(r['kids'])
+
+
+def c02(stream, scen=None):
+    """every generated leaf part is in exactly one place: one device slot, delivered to one sink, or
+    reported lost by one failure; a source never exceeds its budget."""
+    wit = []
+    fs = frames(stream)
+    generated, delivered, lost = [], [], []
+    known = {}                      # last known part table (p lines persist in `state`)
+    prev_parts = {}
+    for i, f in enumerate(fs):
+        if f.trigger[0] == 'abort':
+            return wit
+        if f.now is None or f.trigger[0] in ('ran', 'runbegin'):
+            continue
+        devs = devs_of(f.state)
+        parts = parts_of(f.state)
+        for rec in f.recs:
+            t = rec.split()
+            if t[0] == 'received_part' and int(t[1]) in devs and devs[int(t[1])].kind == 'sink':
+                src = parts if int(t[3]) in parts and parts[int(t[3])]['kids'] is not None else prev_parts
+                delivered += leaves(src if int(t[3]) in src else parts, int(t[3]))
+            if t[0] == 'device_failure' and t[3] != '-':
+                lost += leaves(prev_parts if int(t[3]) in prev_parts else parts, int(t[3]))
+        inside = []
+        for d in devs.values():
+            if d.kind == 'sink':
+                continue
+            for p in d.held():
+                inside += leaves(parts, p)
+            if d.kind == 'source':
+                mx = d.f.get('max', 'inf')
+                if mx != 'inf' and int(d.f['prod']) > int(mx):
+                    wit.append(f'frame {i}: source {d.idx} supplied {d.f["prod"]} parts with a budget of {mx}')
+        for p, r in parts.items():
+            if r['kids'] is None and r['hist'] and p not in generated and devs.get(r['hist'][0]) is not None \
+                    and devs[r['hist'][0]].kind == 'source':
+                generated.append(p)
+        allp = inside + delivered + lost
+        if len(set(allp)) != len(allp):
+            dup = sorted(set(x for x in allp if allp.count(x) > 1))
+            wit.append(f'frame {i} (t={f.now}): parts {dup[:4]} are in two places (inside/delivered/lost)')
+        missing = [p for p in generated if p not in allp]
+        if missing:
+            wit.append(f'frame {i} (t={f.now}): generated parts {missing[:4]} are nowhere (not inside, delivered or lost)')
+        extra = [p for p in allp if p not in generated]
+        if extra:
+            wit.append(f'frame {i} (t={f.now}): parts {extra[:4]} were never generated by a source')
+        prev_parts = parts
+        if len(wit) > 5:
+            break
+    return wit
+
+
+def c03(stream, scen=None):
+    """the deep-copy probe of the runner (ProbeRunner) found a ready part a downstream would accept
+    at an instant at which the clock advances"""
+    return [l for l in stream if l.startswith('lostwake')][:5]
+
+
+def c05(stream, scen=None):
+    """buffer: level = stored parts (batch contents count), level <= capacity, FIFO, minimum delay"""
+    wit = []
+    caps, delays = {}, {}
+    di = 0
+    for l in scen or []:
+        if l[:2] == ['asset', 'dev']:
+            kv = dict(t.split('=', 1) for t in l[3:] if '=' in t)
+            if l[2] == 'buffer':
+                c = kv.get('cap', 'def')
+                caps[di] = None if c in ('def', 'inf') else int(c)
+                delays[di] = int(kv.get('delay', '0'))
+            di += 1
+        elif l[:2] == ['asset', 'group']:
+            di += 2
+    fs = frames(stream)
+    prevbuf = {}
+    for i, f in enumerate(fs):
+        if f.trigger[0] == 'abort':
+            return wit
+        if f.now is None or f.trigger[0] in ('ran', 'runbegin'):
+            continue
+        devs = devs_of(f.state)
+        parts = parts_of(f.state)
+        for x, d in devs.items():
+            if d.kind != 'buffer':
+                continue
+            buf = d.buf()
+            lvl = int(d.f['lvl'])
+            n = sum(len(leaves(parts, p)) for _, p in buf)
+            if n != lvl:
+                wit.append(f'frame {i}: buffer {x} reports level {lvl} but stores {n} parts')
+            if caps.get(x) is not None and lvl > caps[x]:
+                wit.append(f'frame {i}: buffer {x} stores {lvl} parts, capacity {caps[x]}')
+            old = prevbuf.get(x, [])
+            # the new content must be: old minus a prefix, plus appended entries
+            k = 0
+            while k <= len(old) and old[k:] != buf[:len(old) - k]:
+                k += 1
+            if k > len(old):
+                wit.append(f'frame {i}: buffer {x} content {buf} is not the old content {old} minus a prefix plus new arrivals')
+            else:
+                for t0, p in old[:k]:
+                    if f.now - t0 < delays.get(x, 0):
+                        wit.append(f'frame {i}: part {p} left buffer {x} after {f.now - t0} < minimum delay {delays.get(x)}')
+                ts = [t for t, _ in buf]
+                if ts != sorted(ts):
+                    wit.append(f'frame {i}: buffer {x} arrival times not in order {ts}')
+            prevbuf[x] = buf
+    return wit
+
+
+def c08(stream, scen=None):
+    """a held part's history ends at its holder; a part held by a member of a group has a path of
+    that group on top of its stack, a part outside every group has an empty stack; a device with a
+    blocked input receives nothing; collected parts are in arrival order."""
+    wit = []
+    member_group = {}
+    path_group = {}
+    di = 0
+    for l in scen or []:
+        if l[:2] == ['asset', 'dev']:
+            kv = dict(t.split('=', 1) for t in l[3:] if '=' in t)
+            if l[2] == 'gpath':
+                path_group[di] = int(kv['group'])
+            di += 1
+        elif l[:2] == ['asset', 'group']:
+            kv = dict(t.split('=', 1) for t in l[3:] if '=' in t)
+            for m in kv['devs'].split(','):
+                member_group.setdefault(int(m), []).append(int(l[2]))
+            di += 2
+    nested = any(len(v) > 1 for v in member_group.values()) or any(p in member_group for p in path_group)
+    fs = frames(stream)
+    prev = None
+    collected = {}
+    for i, f in enumerate(fs):
+        if f.trigger[0] == 'abort':
+            return wit
+        if f.now is None or f.trigger[0] in ('ran', 'runbegin'):
+            continue
+        devs = devs_of(f.state)
+        parts = parts_of(f.state)
+        for x, d in devs.items():
+            for p in d.held():
+                r = parts.get(p)
+                if r is None:
+                    continue
+                if d.kind == 'batcher' and d.slot('inprog') == p:
+                    continue
+                if not r['hist'] or r['hist'][-1] != x:
+                    if not (d.kind == 'batcher'):   # parts unpacked by a batcher keep the history they arrived with
+                        wit.append(f'frame {i}: part {p} is held by device {x} but its history ends with {r["hist"][-1:]}')
+                if x in member_group and not nested:
+                    g = member_group[x][0]
+                    if not r['stack'] or path_group.get(r['stack'][-1]) != g:
+                        wit.append(f'frame {i}: part {p} is inside group {g} (device {x}) but the top of its path stack is {r["stack"][-1:]}')
+                if x not in member_group and not nested and r['stack']:
+                    wit.append(f'frame {i}: part {p} is outside every group (device {x}) but its path stack is {r["stack"]}')
+            if d.kind == 'sink':
+                c = [int(z) for z in plist_(d.f.get('coll', '-'))]
+                old = collected.get(x, [])
+                if c[:len(old)] != old:
+                    wit.append(f'frame {i}: collected list of sink {x} is not append-only: {old} -> {c}')
+                collected[x] = c
+        if prev is not None:
+            pd = devs_of(prev.state)
+            for rec in f.recs:
+                t = rec.split()
+                if t[0] == 'received_part':
+                    x = int(t[1])
+                    if x in pd and x in devs and pd[x].f.get('blk') == '1' and devs[x].f.get('blk') == '1':
+                        wit.append(f'frame {i}: device {x} received part {t[3]} while its input was blocked')
+        prev = f
+        if len(wit) > 5:
+            break
+    return wit
+
+
+def c11(stream, scen=None):
+    """a processor with required resources has a part in process only while holding exactly them;
+    pool usage = sum of the processors' holdings; no idle operational processor holds resources when
+    the clock advances."""
+    wit = []
+    req = {}
+    di = 0
+    for l in scen or []:
+        if l[:2] == ['asset', 'dev']:
+            kv = dict(t.split('=', 1) for t in l[3:] if '=' in t)
+            if 'res' in kv:
+                req[di] = {k: v for k, v in preq(kv['res']).items() if v > 0}
+            di += 1
+        elif l[:2] == ['asset', 'group']:
+            di += 2
+    fs = frames(stream)
+    adv = set(advance_frames(fs))
+    for i, f in enumerate(fs):
+        if f.trigger[0] == 'abort':
+            return wit
+        if f.now is None or f.trigger[0] in ('ran', 'runbegin'):
+            continue
+        devs = devs_of(f.state)
+        pools = pools_of(f.state)
+        tot = {}
+        for x, d in devs.items():
+            if d.kind != 'processor':
+                continue
+            rv = d.f.get('resv', '-')
+            held = None if rv == '-' else preq(rv[1:-1])
+            if held is not None:
+                for r, a in held.items():
+                    tot[r] = tot.get(r, 0) + a
+            if x in req and d.slot('part') is not None and held != req[x]:
+                wit.append(f'frame {i}: processor {x} has part {d.slot("part")} in process holding {held}, requires {req[x]}')
+            if i in adv and held is not None and d.slot('part') is None and d.f.get('down') == '0' and sum(held.values()) > 0:
+                wit.append(f'frame {i} (t={f.now}): clock advances while idle operational processor {x} holds {held}')
+        for r, (u, c) in pools.items():
+            if tot.get(r, 0) != u:
+                wit.append(f'frame {i}: pool {r} usage {u} but processors hold {tot.get(r, 0)}')
+        if len(wit) > 5:
+            break
+    return wit
+
+
+def c13(stream, scen=None):
+    """uptime / utilisation integrate the operational / processing indicator; a failure drops exactly
+    the part in process and keeps a finished part; a machine that is down receives and releases nothing."""
+    wit = []
+    fs = frames(stream)
+    prev = None
+    acc_up, acc_use = {}, {}
+    for i, f in enumerate(fs):
+        if f.trigger[0] == 'abort':
+            return wit
+        if f.now is None or f.trigger[0] in ('ran', 'runbegin'):
+            continue
+        devs = devs_of(f.state)
+        if prev is not None:
+            pd = devs_of(prev.state)
+            dt = f.now - prev.now
+            for x, d in devs.items():
+                if d.kind != 'processor' or x not in pd:
+                    continue
+                o = pd[x]
+                if o.f['down'] == '0':
+                    acc_up[x] = acc_up.get(x, 0) + dt
+                    if o.slot('part') is not None:
+                        acc_use[x] = acc_use.get(x, 0) + dt
+                if int(d.f['up']) != acc_up.get(x, 0):
+                    wit.append(f'frame {i} (t={f.now}): processor {x} reports uptime {d.f["up"]}, operational time so far is {acc_up.get(x, 0)}')
+                if int(d.f['use']) != acc_use.get(x, 0):
+                    wit.append(f'frame {i} (t={f.now}): processor {x} reports utilisation {d.f["use"]}, processing time so far is {acc_use.get(x, 0)}')
+                if o.f['down'] == '1' and d.f['down'] == '1':
+                    if d.slot('part') is not None and d.slot('part') != o.slot('part'):
+                        wit.append(f'frame {i}: processor {x} accepted part {d.slot("part")} while down')
+                    if o.slot('out') is not None and d.slot('out') is None:
+                        wit.append(f'frame {i}: processor {x} released part {o.slot("out")} while down')
+            for rec in f.recs:
+                t = rec.split()
+                if t[0] == 'device_failure':
+                    x = int(t[1])
+                    if x in pd and x in devs:
+                        was = pd[x].slot('part')
+                        rep = None if t[3] == '-' else int(t[3])
+                        if len([r for r in f.recs if r.startswith(f'device_failure {x} ')]) == 1:
+                            if rep != was:
+                                wit.append(f'frame {i}: failure of {x} reports lost part {rep}, part in process was {was}')
+                            if devs[x].slot('part') is not None:
+                                wit.append(f'frame {i}: processor {x} still has a part in process after failing')
+                            if pd[x].slot('out') != devs[x].slot('out') and pd[x].f['down'] == '1':
+                                wit.append(f'frame {i}: failure of {x} changed its finished part')
+                            ncb = sum(1 for r in f.results if r.startswith(f'shut {x} ') and r.split()[3] == '1')
+                            nreg = None
+                            if rep is not None and any(r.startswith(f'shut {x} ') for r in f.results):
+                                lostrep = [r.split()[4] for r in f.results if r.startswith(f'shut {x} ') and r.split()[3] == '1']
+                                if any(z != str(rep) for z in lostrep):
+                                    wit.append(f'frame {i}: shutdown callbacks of {x} were told lost part {lostrep}, failure log says {rep}')
+        prev = f
+        if len(wit) > 5:
+            break
+    return wit
+
+
+def c15(stream, scen=None):
+    """after every event: last level record = buffer level, last resource_update = pool, source
+    counter = number of supplied records, sink counter = parts in received records."""
+    wit = []
+    fs = frames(stream)
+    last_level, last_res, supplied, recvd = {}, {}, {}, {}
+    known = {}
+    for i, f in enumerate(fs):
+        if f.trigger[0] == 'abort':
+            return wit
+        parts_now = parts_of(f.state) if f.now is not None else {}
+        for rec in f.recs:
+            t = rec.split()
+            if t[0] == 'level':
+                last_level[int(t[1])] = int(t[3])
+                if f.now is not None and int(t[2]) != f.now:
+                    wit.append(f'frame {i}: level record stamped {t[2]} at time {f.now}')
+            elif t[0] == 'resource_update':
+                last_res[int(t[1])] = (int(t[3]), int(t[4]))
+            elif t[0] == 'supplied_new_part':
+                supplied[int(t[1])] = supplied.get(int(t[1]), 0) + 1
+            elif t[0] == 'received_part':
+                src = parts_now if int(t[3]) in parts_now else known
+                recvd[int(t[1])] = recvd.get(int(t[1]), 0) + len(leaves(src, int(t[3])))
+                if f.now is not None and int(t[2]) != f.now:
+                    wit.append(f'frame {i}: received_part record stamped {t[2]} at time {f.now}')
+        if f.now is None or f.trigger[0] in ('ran', 'runbegin'):
+            continue
+        devs = devs_of(f.state)
+        for x, d in devs.items():
+            if d.kind == 'buffer' and x in last_level and last_level[x] != int(d.f['lvl']):
+                wit.append(f'frame {i}: last level record of buffer {x} is {last_level[x]}, level is {d.f["lvl"]}')
+            if d.kind == 'source' and int(d.f['prod']) != supplied.get(x, 0):
+                wit.append(f'frame {i}: source {x} counter {d.f["prod"]} vs {supplied.get(x, 0)} supplied records')
+            if d.kind == 'sink' and int(d.f['recv']) != recvd.get(x, 0):
+                wit.append(f'frame {i}: sink {x} counter {d.f["recv"]} vs {recvd.get(x, 0)} parts in received records')
+        started = any(k.startswith('d ') for k in f.state) and f.trigger[0] == 'ev'
+        if started:
+            for r, (u, c) in pools_of(f.state).items():
+                if r in last_res and last_res[r] != (u, c):
+                    wit.append(f'frame {i}: last resource_update of {r} is {last_res[r]}, pool is {(u, c)}')
+        known.update(parts_now)
+        if len(wit) > 5:
+            break
+    return wit
+
+
+def c16(stream, scen=None):
+    """value bookkeeping checked on the live objects by the runner (ValueRunner)"""
+    return [l for l in stream if l.startswith('valbad')][:5]
+
+
+def c17(stream, scen=None):
+    """a batcher emits batches of exactly n parts (or single parts), and the leaves leaving are, in
+    order, the leaves that arrived."""
+    wit = []
+    bsz = {}
+    di = 0
+    for l in scen or []:
+        if l[:2] == ['asset', 'dev']:
+            kv = dict(t.split('=', 1) for t in l[3:] if '=' in t)
+            if l[2] == 'batcher':
+                b = kv.get('bsz', '-')
+                bsz[di] = None if b in ('-', 'def', 'inf') else int(b)
+            di += 1
+        elif l[:2] == ['asset', 'group']:
+            di += 2
+    fs = frames(stream)
+    arrived, emitted, lastout = {}, {}, {}
+    prev_parts = {}
+    for i, f in enumerate(fs):
+        if f.trigger[0] == 'abort':
+            return wit
+        if f.now is None or f.trigger[0] in ('ran', 'runbegin'):
+            continue
+        devs = devs_of(f.state)
+        parts = parts_of(f.state)
+        for rec in f.recs:
+            t = rec.split()
+            if t[0] == 'received_part' and int(t[1]) in bsz:
+                src = prev_parts if int(t[3]) in prev_parts else parts
+                arrived.setdefault(int(t[1]), []).extend(leaves(src, int(t[3])))
+        for x in bsz:
+            d = devs.get(x)
+            if d is None:
+                continue
+            o = d.slot('out')
+            if o is not None and o != lastout.get(x):
+                lv = leaves(parts, o)
+                if bsz[x] is None:
+                    if parts.get(o, {}).get('kids') is not None:
+                        wit.append(f'frame {i}: single-part batcher {x} emits a batch {o}')
+                elif parts.get(o, {}).get('kids') is None or len(lv) != bsz[x]:
+                    wit.append(f'frame {i}: batcher {x} (size {bsz[x]}) emits {o} with {len(lv)} parts')
+                emitted.setdefault(x, []).extend(lv)
+            lastout[x] = o
+            em = emitted.get(x, [])
+            ar = arrived.get(x, [])
+            if em != ar[:len(em)]:
+                wit.append(f'frame {i}: batcher {x} emitted leaves {em[-6:]} which is not a prefix of the arrivals {ar[:len(em)][-6:]}')
+        prev_parts = parts
+        if len(wit) > 5:
+            break
+    return wit
+
+
+MONITORS.update({'C02': [c02], 'C03': [c03], 'C05': [c05], 'C08': [c08], 'C11': [c11], 'C13': [c13],
+                 'C15': [c15], 'C16': [c16], 'C17': [c17]})
